@@ -47,6 +47,12 @@ def scenarios(tier, seed):
             cells = [tc.cell(i, i * far, level=rnd.choice([1, 2]), growth=rnd.choice([0.0, 2e-11, -2e-11, -4e-10, 3e-10]), minvol=rnd.choice([1e-19, 1.0e-16, 1.5e-16]),
                              K=rnd.choice([1e-3, 1e3, 2.5e3, 1e4]), pmax=rnd.choice(["inf", 10.0, 500.0]), p0=rnd.choice([0.0, 200.0, -200.0, 900.0]),
                              divvol=rnd.choice(["inf", "inf", 1e-17])) for i in range(rnd.randint(1, 4))]
+            for c in cells:
+                # an initial pressure of 2e5 bulk moduli has no target volume in double precision (V * exp(p0 / K) overflows): outside the
+                # domain in which the law can be evaluated at all (the first version of this generator produced such cells; the run then
+                # spends its whole time limit in a contact grid of infinite extent -- a defect of the generator, not a finding)
+                if abs(c["p0"]) > 30.0 * c["K"]:
+                    c["p0"] = 0.0
             out.append(sc("rnd%d" % k, cells, [], T=rnd.choice([800, 2600]), seed=seed + k,
                           draws={"n": 10000, "g_mean": rnd.choice([0.0, 2e-11, -1e-11]), "g_std": rnd.choice([2e-12, 1e-11]), "v_mean": 1.4e-14, "v_std": rnd.choice([1.4e-15, 7e-15])}))
     return out
